@@ -494,7 +494,7 @@ tp_task_handler(int type, tp_event_p ev, tp_udata_p tp_udata,
 	uintptr_t ident;
 	ssize_t ios;
 	size_t data2transfer_size, transfered_size = 0;
-	int error, cb_ret;
+	int error, ios_error, cb_ret;
 	uint32_t eof;
 
 	debugd_break_if(NULL == ev);
@@ -606,15 +606,19 @@ tp_task_handler(int type, tp_event_p ev, tp_udata_p tp_udata,
 	}
 
 err_out: /* Error. */
-	error = errno;
-	if (0 == error) {
-		error = EINVAL;
+	ios_error = errno;
+	if (0 == ios_error) {
+		ios_error = EINVAL;
 	}
-	error = SKT_ERR_FILTER(error);
-	if (0 == error) {
+	ios_error = SKT_ERR_FILTER(ios_error);
+	if (0 == ios_error &&
+	    0 == error) { /* Would block and no error reported by thread pool. */
 		tptask->tot_transfered_size += transfered_size; /* Save transfered_size. */
 		cb_ret = TP_TASK_CB_CONTINUE;
 		goto call_cb_handle;
+	}
+	if (0 != ios_error) { /* Else: keep error reported by thread pool. */
+		error = ios_error;
 	}
 
 call_cb:
